@@ -103,6 +103,12 @@ def check_line(version: str, line: str, gateway_level: bool = True) -> list:
     if gateway_level and cls == "must_reject":
         s = Session(version, reset_modules=False)
         out = s.line(line)
+        # ... also while the gateway's version is still unknown and the transport cannot be written to
+        s2 = Session(None, reset_modules=False)
+        s2.transport.fail_writes = 5
+        out2 = s2.line(line)
+        if not (out2.kind == "raise" and isinstance(out2.exc, InvalidMessageError)):
+            bad(f"listen-unknown-version-write-fault:{type(out2.exc).__name__ if out2.kind == 'raise' else out2.kind}", f"with the version unknown and a failing transport, listen() gave {out2.describe()}")
         if not (out.kind == "raise" and isinstance(out.exc, InvalidMessageError)):
             if out.kind == "raise":
                 bad(f"listen-foreign-exception:{type(out.exc).__name__}", f"listen() raised {type(out.exc).__name__}: {out.exc}")
@@ -150,6 +156,34 @@ def check_history(version: str, seq: list) -> list:
             bad("listen-accepted-ill-formed", f"listen() gave {out.describe()}")
         if cls == "must_accept" and rejected:
             bad("listen-rejected-well-formed", f"listen() gave {out.describe()}")
+    return viols
+
+
+def check_states(version: str) -> list:
+    """An accepted line decodes to exactly what it spells in every gateway state, also when commands are parked
+    for a sleeping node and the line is that node's wake."""
+    from aiomysensors.model.message import Message as Msg
+
+    viols = []
+    wt = R.wake_type(version)
+    setups = [[], ["1;255;0;0;17;2.0", "1;3;0;0;3;d"]]
+    if wt is not None:
+        setups.append(["1;255;0;0;17;2.0", "1;3;0;0;3;d", f"1;255;3;0;{wt};0", ("send", (1, 3, 1, 0, 2, "on")), ("send", (1, 255, 3, 0, 13, "x"))])
+    lines = ["1;255;3;0;22;7", "1;255;3;0;32;500", "1;3;1;0;2;v", "1;3;2;0;2;", "1;255;3;0;0;50", "1;255;0;0;17;2.0", "1;3;0;0;3;d", "255;255;3;0;3;", "1;255;3;0;6;", "0;255;3;0;9;log"]
+    for setup in setups:
+        for line in lines:
+            s = Session(version, reset_modules=False)
+            for st in setup:
+                if isinstance(st, tuple):
+                    s.send(Msg(*st[1]))
+                else:
+                    s.line(st)
+            out = s.line(line)
+            if out.kind == "yield":
+                f = line.split(";", 5)
+                want = (int(f[0]), int(f[1]), int(f[2]), int(f[3]), int(f[4]), f[5])
+                if out.fields != want:
+                    viols.append(("C02|state-decoded-values-differ", f"[{version}] in gateway state {setup} the line {line!r} was yielded as {out.fields}", {"version": version, "state_check": True}))
     return viols
 
 
@@ -212,10 +246,12 @@ def run(ctx: core.Ctx) -> core.Report:
     rp = core.pmap(job_prefix, jobsp, ctx.workers, chunksize=1)
     jobsh = [(v, HISTORY_LINES[i : i + 4]) for v in R.VERSIONS for i in range(0, len(HISTORY_LINES), 4)]
     rp += core.pmap(job_history, jobsh, ctx.workers, chunksize=1)
+    sres = core.pmap(check_states, list(R.VERSIONS), ctx.workers, chunksize=1)
     total = 0
     classes = {"must_accept": 0, "must_reject": 0, "either": 0}
     viols = []
     samples = []
+    state_viols = [core.Violation(k, w, rep) for r in sres for k, w, rep in r]
     for n, cl, vs, sample in r6 + rp:
         total += n
         for k in cl:
@@ -234,7 +270,7 @@ def run(ctx: core.Ctx) -> core.Report:
     return core.Report(
         level="exploration",
         coverage=cov,
-        violations=viols,
+        violations=viols + state_viols,
         assumptions=[
             "three-valued oracle: unusual int()-parsable spellings (' 1', '01') may be accepted or rejected, but if accepted must decode to int(field) and obey all rules",
             "strings outside the token alphabets are not covered",
@@ -243,6 +279,9 @@ def run(ctx: core.Ctx) -> core.Report:
 
 
 def replay(data: dict) -> dict:
+    if data.get("state_check"):
+        v = check_states(data["version"])
+        return {"violated": bool(v), "violations": [{"key": k, "what": w} for k, w, _ in v]}
     if "seq" in data:
         v = check_history(data["version"], data["seq"])
         return {"violated": bool(v), "violations": [{"key": k, "what": w} for k, w, _ in v]}
